@@ -209,6 +209,28 @@ def translate_site(src_root, site):
             if site.get("pick") is not None: hits = [h for h in hits if site["pick"] in ast.unparse(h)]
         if len(hits) != 1: raise Unsupported(f"{len(hits)} places match `{where}` in {site['fn']} (expected one)")
         body = f"  {depth(hits[0])}"; rty = "Nat"
+    elif mode == "once":
+        # a component builds its generator factory once, when it is constructed, and every call draws from what that factory returns: the
+        # number of departures — the attribute defined as a method / property, not assigned exactly once at the top level of `__init__`
+        # from the expected maker, assigned or the maker called anywhere else in the class, the call method not using it exactly once
+        cnode = next(c for c in mod.body if isinstance(c, ast.ClassDef) and c.name == site["cls"]); digest_node = cnode
+        attr, maker, use = site["attr"], site["maker"], site["use"]
+        count = 0
+        if any(isinstance(f, (ast.FunctionDef, ast.AsyncFunctionDef)) and f.name == attr for f in cnode.body): count += 1
+        tops = [st for st in fn.body if isinstance(st, ast.Assign) and [ast.unparse(t) for t in st.targets] == ["self." + attr]]
+        if len(tops) != 1 or ast.unparse(tops[0].value) != maker: count += 1
+        maker_fn = maker.split("(")[0]
+        for f in cnode.body:
+            if not isinstance(f, (ast.FunctionDef, ast.AsyncFunctionDef)): continue
+            for n in ast.walk(f):
+                if isinstance(n, (ast.Assign, ast.AugAssign, ast.AnnAssign)) and any(ast.unparse(t) == "self." + attr for t in (n.targets if isinstance(n, ast.Assign) else [n.target])) and n not in tops: count += 1
+                if isinstance(n, ast.Call) and ast.unparse(n.func) == maker_fn and not (f is fn and any(n is x for t in tops for x in ast.walk(t))): count += 1
+        ufn = find_fn(mod, site["cls"], site["use_fn"])
+        uses = [n for n in ast.walk(ufn) if isinstance(n, ast.Call) and ast.unparse(n) == use]
+        other = [n for n in ast.walk(ufn) if isinstance(n, ast.Attribute) and ast.unparse(n) == "self." + attr]
+        if len(uses) != 1 or len(other) != 1: count += 1
+        if any(isinstance(n, (ast.For, ast.While)) and any(u in list(ast.walk(n)) for u in uses) for n in ast.walk(ufn)): count += 1
+        body = f"  {count}"; rty = "Nat"
     elif mode == "aliasmut":
         # a constructor that starts from `self.__dict__.update(source.__dict__)` shares every attribute object with `source` until it
         # rebinds the attribute.  Counted: the places that change such a shared object in place — a mutating method call or a
@@ -290,7 +312,7 @@ def translate_site(src_root, site):
     for text, (name, kind) in site["atoms"].items():
         if name in seen or kind in ("const", "local"): continue
         seen.add(name); params.append(f"({name} : " + {"opt": "LK.Py.V", "int": "Int", "bool": "Bool"}[kind] + ")")
-    seg = ast.get_source_segment(src, fn)
+    seg = ast.get_source_segment(src, digest_node if mode == "once" else fn)
     return {"lean": f"def {site['lean']} " + " ".join(params) + f" : {rty} :=\n{body}\n", "assumptions": g.assumptions,
             "digest": hashlib.sha256(seg.encode()).hexdigest()[:16], "where": f"{site['file']} {site.get('cls') or ''}.{site['fn']} [{mode}]"}
 
@@ -395,6 +417,13 @@ SITES["C16"] = [
          atoms={"missing == 'error'": ("missingIsError", B), "np.any(self._numbers.numpy() < 0)": ("anyUnknown", B)}),
     dict(file="data/items.py", cls="ItemList", fn="numbers", mode="branch", select="self._numbers is None", lean="numbersCacheBranch",
          atoms={"self._numbers": ("cached", O), "self._vocab": ("vocab", O)}),
+]
+
+# the three stochastic components build their generator factory once, when constructed, and draw from it once per call
+SITES["C19"] += [
+    dict(file=f, cls=c, fn="__init__", mode="once", attr="_rng_factory", maker="derivable_rng(self.config.rng)", use_fn="__call__", use="self._rng_factory(query)", lean=l, atoms={})
+    for f, c, l in (("basic/random.py", "RandomSelector", "randomSelectorFactoryDepartures"), ("basic/random.py", "SoftmaxRanker", "softmaxRankerFactoryDepartures"),
+                    ("stochastic/_ranker.py", "StochasticTopNRanker", "stochasticRankerFactoryDepartures"))
 ]
 
 # `ranks()`: an unordered list has no ranks — whatever is cached; an ordered one returns the stored ranks, computing 1…n when none are stored
